@@ -29,13 +29,17 @@ RMAX = 25.6
 NK = 128
 
 
-def levels(n):
-    return [(i, 128 * 2 ** i, RMAX / (128 * 2 ** i)) for i in range(n)]
+DR0 = 0.2
+BASES = [128, 112, 120, 126, 127, 121]      # coarsest lengths: 2^7, 7*2^4, 2^3*3*5, 2*3^2*7, prime, 11^2 (r_max = 0.2*base)
+
+
+def levels(n, base=128):
+    return [(i, base * 2 ** i, DR0 / 2 ** i) for i in range(n)]
 
 
 class Fam(object):
-    def __init__(self, name, w, A):
-        self.name, self.w, self.A = name, w, A
+    def __init__(self, name, w, A, rmax=RMAX):
+        self.name, self.w, self.A, self.rmax = name, w, A, rmax
 
     def f(self, r):
         if self.name == 'gauss':
@@ -82,11 +86,11 @@ class Fam(object):
         """Truncation of the r integral at r_max (independent of dr)."""
         a = abs(self.A)
         if self.name == 'yukawa':
-            return 4 * np.pi * a * np.exp(-self.w * RMAX) / (self.w * k) * 2
+            return 4 * np.pi * a * np.exp(-self.w * self.rmax) / (self.w * k) * 2
         if self.name == 'expo':
-            return 4 * np.pi * a * np.exp(-self.w * RMAX) * (RMAX + 1 / self.w) / (self.w * k) * 2
+            return 4 * np.pi * a * np.exp(-self.w * self.rmax) * (self.rmax + 1 / self.w) / (self.w * k) * 2
         if self.name == 'gauss':
-            return 4 * np.pi * a * np.exp(-RMAX ** 2 / (2 * self.w ** 2)) * RMAX * self.w ** 2 / k * 2
+            return 4 * np.pi * a * np.exp(-self.rmax ** 2 / (2 * self.w ** 2)) * self.rmax * self.w ** 2 / k * 2
         return 0.0
 
     def bwd_bound(self, r, dr):
@@ -118,10 +122,11 @@ def tags(fam, kind, direction):
 
 
 def case_ladder(rec, c):
-    fam = Fam(c['family'], c['width'], c['amplitude'])
+    base = c.get('base', 128)
+    fam = Fam(c['family'], c['width'], c['amplitude'], DR0 * base)
     errs = {'fwd': [], 'bwd': []}
     nl = c['levels']
-    for n, L, dr in levels(nl):
+    for n, L, dr in levels(nl, base):
         d = build.make_domain({'length': L, 'dr': dr})
         if not build.domain_ok(d):
             rec.count('skipped_preconditions')
@@ -131,10 +136,10 @@ def case_ladder(rec, c):
         sel = np.arange(step - 1, L, step)             # points of the coarsest r grid
         r = d.r[sel]
         m = r >= 0.2 - 1e-9
-        k = d.k[:NK]
+        k = d.k[:min(NK, base)]
         # forward
         f = fam.f(d.r)
-        Fn = np.asarray(d.to_fourier(f))[:NK]
+        Fn = np.asarray(d.to_fourier(f))[:len(k)]
         rec.trans()
         Fx = fam.F(k)
         e = np.abs(Fn - Fx)
@@ -181,7 +186,7 @@ def case_ladder(rec, c):
             if not es[-1] <= 0.25 * es[0]:
                 rec.fail(c, '%s(w=%g) %s: error at the finest level %.3g is not below a quarter of the coarsest %.3g' % (fam.name, fam.w, direction, es[-1], es[0]),
                          tags(fam, 'shrink', direction))
-    rec.note('errors_%s_%g_%g' % (fam.name, fam.w, fam.A), {k: ['%.3g' % x for x in v] for k, v in errs.items()})
+    rec.note('errors_%s_%g_%g_%d' % (fam.name, fam.w, fam.A, base), {k: ['%.3g' % x for x in v] for k, v in errs.items()})
     rec.trace()
 
 
@@ -211,8 +216,16 @@ def run(rec, tier, seed):
     cases = []
     for fam in widths:
         for w, A in itertools.product(widths[fam], amps):
-            cases.append({'family': fam, 'width': w, 'amplitude': A, 'levels': nl})
+            cases.append({'family': fam, 'width': w, 'amplitude': A, 'levels': nl, 'base': 128})
+    # the same ladders on lengths that are not powers of two (the transform must not depend on the
+    # factorisation of the length): every base x every family, one width each in quick, all in thorough
+    for base in BASES[1:]:
+        for fam in widths:
+            ws = widths[fam] if tier == 'thorough' else widths[fam][:1]
+            for w in ws:
+                cases.append({'family': fam, 'width': w, 'amplitude': amps[-1], 'levels': min(nl, 5), 'base': base})
     core.pmap(_worker, cases, rec)
-    rec.note('alphabets', {'widths': widths, 'amplitudes': amps, 'ladder': ['dr=%g (length %d)' % (dr, L) for _, L, dr in levels(nl)], 'r_max': RMAX})
+    rec.note('alphabets', {'widths': widths, 'amplitudes': amps, 'ladder': ['dr=%g (length %d)' % (dr, L) for _, L, dr in levels(nl)], 'r_max': RMAX,
+                           'bases': BASES, 'ladder_other_bases': 'length = base*2^n, dr = 0.2/2^n, n < %d' % min(nl, 5)})
     rec.sample(cases[0])
     rec.sample(cases[-1])
